@@ -23,6 +23,7 @@ fn histex_part(run: &mut Run, tier: &str, plans: &[HxPlan], owned: &[&str], note
     let cap_total: f64 = std::env::var("VERIF_CAP_SECS").ok().and_then(|s| s.parse().ok()).unwrap_or(if tier == "quick" { 45.0 } else { 780.0 });
     let per = cap_total / plans.len() as f64;
     let mut exhaustive = true;
+    let mut decoder_disagreements = 0u64;
     for p in plans {
         let fam = family(p.family);
         let depth = if tier == "quick" { p.quick_depth } else { p.thorough_depth };
@@ -32,6 +33,7 @@ fn histex_part(run: &mut Run, tier: &str, plans: &[HxPlan], owned: &[&str], note
         if st.depth_completed < depth {
             exhaustive = false;
         }
+        decoder_disagreements += st.decoder_disagreements;
         fams.push(histex::stats_json(&fam, &st));
     }
     run.set("states", json!(states));
@@ -45,6 +47,9 @@ fn histex_part(run: &mut Run, tier: &str, plans: &[HxPlan], owned: &[&str], note
     run.assume("128-bit tag / scalar collisions are treated as impossible");
     if trans == 0 && run.violations.is_empty() {
         machinery("no transition explored");
+    }
+    if decoder_disagreements > 0 && run.violations.is_empty() {
+        machinery(&format!("the independent wire decoder and the library disagreed on the layout of {decoder_disagreements} objects; that is C13's verdict to give (run `bin/check C13 quick`) and this run's coverage is compromised"));
     }
 }
 
